@@ -67,6 +67,18 @@ CHECKS = {
    text="Trees mixing 8 eligible files with 22 ineligible names (every letter-casing class of .sol / .t.sol, look-alike suffixes, names with multi-byte characters straddling suffix offsets) x 4 contents (valid Solidity with findings, empty, unparseable text, non-UTF-8 bytes), alone, next to an eligible file, in pairs, at depth 0, 1 and 2, under every listing order (seam); real analyze_dir of the three categories. Oracle: eligibility predicate from the property, per-file union of the eligible files, differential 'same result as the tree without its ineligible files', and no panic; binary-level replay of small trees.",
    note="Names containing '.t.sol' case-insensitively not as a suffix while ending in '.sol' are left out (the property does not classify them).",
    technique="explicit-state enumeration of directory contents and listing orders with predicate + differential ('as if absent') oracles"),
+ "C14": dict(engine="binx", ref="7/C14",
+   text="Name level: every pattern name parsed at run time from docs/identified-*.md, README.md and Solstat.toml x every letter casing (all 2^k casings for names of <= 12 (quick) / 22 (thorough) letters, otherwise Hamming balls of radius 2 / 3 around all-lower and all-upper plus alternating and every lower/upper split) through str_to_optimization / str_to_vulnerability / str_to_qa under catch_unwind: accepted, same pattern as the lower-case name, distinct names -> distinct patterns, every default pattern named. Binary level (unhooked binary, corpus directory with one file per pattern, each verified to have a finding of its own): no --toml, every singleton in up to 4 casings, ordered pairs within a category, cross-category triples, empty lists: the report's sections are exactly the selection; directory resolution over 5 --path values x 4 toml paths x ./contracts present/absent; unknown names (10 strings x 3 lists x 3 positions x pre-existing report or not): non-zero exit and the report neither created nor modified.",
+   note="Trusted: the documentation parser (markdown table first column, toml string arrays); report sections recognised by the section texts of the same build. A toml file without 'path' is outside the explored space (the struct requires it).",
+   technique="exhaustive enumeration of configurations (names x casings, selections, flag/file/default combinations, unknown-name placements) against the real binary and the real name tables"),
+ "C15": dict(engine="c15", ref="7/C15",
+   text="Baseline R0(file, pattern): the single call performed in a fresh subprocess. Explicit-state exploration of (a) all call histories of length 2 (thorough: length 3 over calls sharing a file or pattern) over files x 30 patterns x file numbers, each history on a fresh OS thread, the file alphabet containing pairs of equal byte length with different line layouts; (b) directories built from 1..3 files with the target at every listing position (seam), in sibling sub-directories or not, under reversed / rotated / reduced pattern selections; (c) EVERY call-level interleaving of 2 and 3 real OS threads under a baton (2+2, 1+1+1, 2+1 calls; 6, 6, 3 schedules each). Every result must equal R0. A free-running run of the same bodies on 4 unscheduled threads is a sampled extra, labelled as such.",
+   note="Interleavings are explored at call granularity; that is complete as long as the source scan (reported in the evidence) finds no shared-state construct in /repo/src. If a change introduces shared state, leaks visible sequentially or at call granularity are still found; interleavings inside a call are probed only by the sampled free-running run.",
+   technique="explicit-state exploration of call histories and of all call-level thread interleavings under a controlled scheduler (baton), differential oracle against fresh-process results"),
+ "C18": dict(engine="binx", ref="7/C18",
+   text="Breadth-first exploration of run histories of the unhooked binary, length <= 3 (quick) / 4 (thorough), over 16 actions: run from a working directory outside the tree / the parent of the analysed directory / the analysed directory itself; edit the tree (add, change, remove a .sol file, make it finding-free); plant a left-over solstat_report.md (unrelated bytes, 1 MB, a longer stale report) in any of the three working directories. After every run the whole scratch root is byte-compared with its snapshot before the run: only <cwd>/solstat_report.md may be created or replaced, it must exist, and it must be byte-identical to the report of a run on a fresh copy of the current tree from a clean working directory (so a stale report is overwritten, not appended to, and never influences the result).",
+   note="Byte equality with the fresh run relies on deterministic rendering (C13). strace corroboration is not used for any verdict.",
+   technique="explicit-state (BFS) exploration of operation histories of the real binary with file-system snapshot invariants and a fresh-run differential oracle"),
 }
 ALL = ["C%02d" % i for i in range(1, 20)]
 NOT_YET = "check not built yet in this revision of /verif (see DESIGN.md section 7 for the planned decision procedure)"
